@@ -486,6 +486,20 @@ def part_generaldyne(ctx, pq, quick, rng):
         counters["states"] += 1
 
 
+def part_dyne_spec(ctx, pq, quick, rng, pid="C02"):
+    """PqDyne: exact sampling law AND exact conditional state of heterodyne / general-dyne on ordered mode tuples"""
+    from .. import dyne_replay as DY
+    d = 3
+    gates = L.gaussian_catalogue(d, rng=rng, size=5 if quick else 8)
+    modes = [(0,), (2, 0), (0, 2), (1, 2), (2, 1)]
+    dets = ["heterodyne", "generaldyne(2,1/2)"] if quick else list(DY.DETCOVS)
+    recs = DY.explore(ctx, d, gates, 1 if quick else 2, modes, dets)
+    n = DY.replay(ctx, pq, pid, d, gates, recs, rng, per_state=8 if quick else None)
+    ctx.notes.setdefault("dyne_spec", {"states": 0, "cases": 0})
+    ctx.notes["dyne_spec"]["states"] += len(recs)
+    ctx.notes["dyne_spec"]["cases"] += n
+
+
 def run(ctx):
     import piquasso as pq
     quick = ctx.tier == "quick"
@@ -504,3 +518,5 @@ def run(ctx):
     ctx.tick("distinguishable_sampler")
     part_generaldyne(ctx, pq, quick, rng)
     ctx.tick("generaldyne")
+    part_dyne_spec(ctx, pq, quick, rng)
+    ctx.tick("dyne_spec")
